@@ -19,6 +19,10 @@ def run(ctx):
     V.run_model(ctx, "votor_handover", c05.HANDOVER, 7, 7 if ctx.tier == "quick" else 9,
                 relevant=lambda fp, fields: "Standstill" in fp,
                 sample=60000 if ctx.tier == "quick" else 600000)
+    # code -> spec on real executions: standstill recovery triggered periodically at every node of simulated networks;
+    # every bundle must equal StandstillBundle of the pool state reached, and Votor must re-broadcast all of it
+    from .. import nodetrace as NT
+    NT.component_sims(ctx, lambda a: "standstill" in a, count=(2 if ctx.tier == "quick" else None))
     return ctx.finish(rule="recover_from_standstill is invoked in every reachable model state (self-loop "
                            "transition); each invocation with its bundle, receiver-side validation and "
                            "fresh-pool catch-up comparison is one case")
